@@ -10,7 +10,7 @@ package db
 // PutExistingRevWithBody (kind "push": the client's history of the parent, new revision id chosen by the client) or
 // DeleteDoc (kind "del").  Per attachment name the write carries New(content) - inline base64 `data` -, Stub -
 // `stub:true, revpos, digest` exactly as a client that holds the parent revision repeats it - or nothing.  The model
-// contents c1..c3 are bound to seeded random bytes, one of them EMPTY and one larger (binary, all byte values).
+// contents c1..c3 are bound to seeded bytes: one EMPTY, one larger binary one, one gzip-ENCODED ("encoding":"gzip", length = decoded length).
 // Steps "B" ... "E" bracket a write whose first attempt is overtaken: the writes listed between them run inside
 // LeakyDataStore's UpdateCallback of the first attempt (after storeAttachments / setAttachments of attempt 1, before its
 // CAS write), so the CAS write fails and the update callback - including the attachment storage - runs again.
@@ -31,6 +31,7 @@ package db
 
 import (
 	"bytes"
+	"compress/gzip"
 	"context"
 	"encoding/base64"
 	"fmt"
@@ -83,7 +84,9 @@ type vC14H struct {
 	lds   *base.LeakyDataStore
 	allow bool
 
-	contents [][]byte // 1-based: contents[c]
+	contents [][]byte // 1-based: contents[c] = the stored bytes
+	enc      []bool   // written with "encoding":"gzip"
+	declen   []int    // the length the client advertises (decoded length for an encoded content)
 	digests  []string
 
 	// per behaviour
@@ -100,23 +103,41 @@ type vC14H struct {
 	rnd     *rand.Rand
 }
 
-func vC14Contents(seed int64) [][]byte {
+// vC14Contents binds the model contents: one EMPTY, one larger binary one, and one written with "encoding":"gzip" (the stored bytes -
+// what the digest is taken of and what is served - are the gzip bytes; `length` advertises the DECODED length, `encoded_length` the
+// stored one).  Which content number gets which kind depends on the seed.
+func vC14Contents(seed int64) (stored [][]byte, enc []bool, declen []int) {
 	rnd := rand.New(rand.NewSource(seed*7919 + 14))
-	sizes := []int{0, 1 + rnd.Intn(200), 70000 + rnd.Intn(400000)}
-	if vThorough() { // every leaf's attachments are read back after every step: multi-MB contents would only slow the replay down
-		sizes[2] = 600*1024 + rnd.Intn(600*1024)
-	}
-	rnd.Shuffle(len(sizes), func(i, j int) { sizes[i], sizes[j] = sizes[j], sizes[i] })
-	out := make([][]byte, vC14NContents+1)
+	kinds := []int{0, 1, 2} // 0 empty, 1 gzip-encoded text, 2 large binary
+	rnd.Shuffle(len(kinds), func(i, j int) { kinds[i], kinds[j] = kinds[j], kinds[i] })
+	stored = make([][]byte, vC14NContents+1)
+	enc = make([]bool, vC14NContents+1)
+	declen = make([]int, vC14NContents+1)
 	for c := 1; c <= vC14NContents; c++ {
-		b := make([]byte, sizes[c-1])
-		rnd.Read(b)
-		if len(b) > 4 { // every byte value class incl. NUL, 0xff, quotes, newlines
-			copy(b, []byte{0x00, 0xff, '"', '\n', '\\'})
+		switch kinds[c-1] {
+		case 0:
+			stored[c] = []byte{}
+		case 1:
+			plain := bytes.Repeat([]byte(fmt.Sprintf("<p>c14 seed %d attachment</p>\n", seed)), 20+rnd.Intn(60))
+			var gz bytes.Buffer
+			zw := gzip.NewWriter(&gz)
+			_, _ = zw.Write(plain)
+			_ = zw.Close()
+			stored[c], enc[c], declen[c] = gz.Bytes(), true, len(plain)
+			continue
+		default:
+			n := 70000 + rnd.Intn(400000)
+			if vThorough() { // every leaf's attachments are read back after every step: multi-MB contents would only slow the replay down
+				n = 600*1024 + rnd.Intn(600*1024)
+			}
+			b := make([]byte, n)
+			rnd.Read(b)
+			copy(b, []byte{0x00, 0xff, '"', '\n', '\\'}) // every byte value class incl. NUL, 0xff, quotes, newlines
+			stored[c] = b
 		}
-		out[c] = b
+		declen[c] = len(stored[c])
 	}
-	return out
+	return stored, enc, declen
 }
 
 func vC14New(t *testing.T, tw *vTraceWriter, allow bool) *vC14H {
@@ -130,7 +151,7 @@ func vC14New(t *testing.T, tw *vTraceWriter, allow bool) *vC14H {
 		t.Fatalf("VERIF-FATAL C14: collection data store %T is not a LeakyDataStore", h.col.dataStore)
 	}
 	h.lds = lds
-	h.contents = vC14Contents(vSeed())
+	h.contents, h.enc, h.declen = vC14Contents(vSeed())
 	h.digests = make([]string, vC14NContents+1)
 	for c := 1; c <= vC14NContents; c++ {
 		h.digests[c] = Sha1DigestKey(h.contents[c])
@@ -232,12 +253,13 @@ func (h *vC14H) observeDoc(d int) vObj {
 		for _, n := range names {
 			m, ok := meta[n].(map[string]any)
 			if !ok {
-				atts = append(atts, vObj{"l": lm, "n": n, "dg": 0, "ln": -1, "rp": -1, "ver": -1, "ex": false, "rd": -1})
+				atts = append(atts, vObj{"l": lm, "n": n, "dg": 0, "ln": -1, "enc": false, "eln": -1, "rp": -1, "ver": -1, "ex": false, "rd": -1})
 				continue
 			}
 			dig, _ := m["digest"].(string)
 			ver, _ := GetAttachmentVersion(m)
-			rec := vObj{"l": lm, "n": n, "dg": h.contentOfDigest(dig), "ln": vC14MetaInt(m, "length"), "rp": vC14MetaInt(m, "revpos"), "ver": ver, "ex": false, "rd": -1}
+			rec := vObj{"l": lm, "n": n, "dg": h.contentOfDigest(dig), "ln": vC14MetaInt(m, "length"), "enc": m["encoding"] != nil, "eln": vC14MetaInt(m, "encoded_length"),
+				"rp": vC14MetaInt(m, "revpos"), "ver": ver, "ex": false, "rd": -1}
 			data, rerr := h.col.GetAttachment(h.ctx, MakeAttachmentKey(ver, docid, dig))
 			if rerr == nil {
 				rec["ex"] = true
@@ -262,11 +284,11 @@ func (h *vC14H) observeDoc(d int) vObj {
 		for _, n := range bn {
 			m, ok := batts[n].(map[string]any)
 			if !ok {
-				api = append(api, vObj{"l": lm, "n": n, "dg": 0, "ln": -1, "rd": -1})
+				api = append(api, vObj{"l": lm, "n": n, "dg": 0, "ln": -1, "enc": false, "eln": -1, "rd": -1})
 				continue
 			}
 			dig, _ := m["digest"].(string)
-			rec := vObj{"l": lm, "n": n, "dg": h.contentOfDigest(dig), "ln": vC14MetaInt(m, "length"), "rd": -1}
+			rec := vObj{"l": lm, "n": n, "dg": h.contentOfDigest(dig), "ln": vC14MetaInt(m, "length"), "enc": m["encoding"] != nil, "eln": vC14MetaInt(m, "encoded_length"), "rd": -1}
 			if raw, has := m["data"]; has && raw != nil {
 				if b, derr := DecodeAttachment(raw); derr == nil {
 					rec["rd"] = h.contentOfBytes(b)
@@ -383,14 +405,19 @@ func (h *vC14H) attachmentsFor(st vC14Step, p int, gen int) (map[string]any, map
 		}
 		switch c := vInt(v); {
 		case c > 0:
-			atts[n] = map[string]any{"data": base64.StdEncoding.EncodeToString(h.contents[c]), "content_type": "application/octet-stream"}
+			m := map[string]any{"data": base64.StdEncoding.EncodeToString(h.contents[c]), "content_type": "application/octet-stream"}
+			if h.enc[c] { // as a client that stores the attachment compressed sends it
+				m["encoding"] = "gzip"
+				m["length"] = float64(h.declen[c])
+			}
+			atts[n] = m
 			want[n] = vC14Want{c: c, pos: gen}
 		case c < 0:
 			pw, ok := h.want[p][n]
 			if !ok { // the model never asks for a stub the parent does not carry; if it does, send what a confused client would
 				pw = vC14Want{c: 1, pos: gen - 1}
 			}
-			atts[n] = map[string]any{"stub": true, "revpos": pw.pos, "digest": h.digests[pw.c], "length": len(h.contents[pw.c]), "content_type": "application/octet-stream"}
+			atts[n] = map[string]any{"stub": true, "revpos": pw.pos, "digest": h.digests[pw.c]}
 			want[n] = pw
 		}
 	}
@@ -501,11 +528,17 @@ func (h *vC14H) runBehaviour(bi int, b vC14Beh) {
 	} else {
 		h.db.RevsLimit = DefaultRevsLimitNoConflicts
 	}
-	clen := []int{}
+	clen, cenc, celen := []int{}, []bool{}, []int{}
 	for c := 1; c <= vC14NContents; c++ {
-		clen = append(clen, len(h.contents[c]))
+		clen = append(clen, h.declen[c])
+		cenc = append(cenc, h.enc[c])
+		if h.enc[c] {
+			celen = append(celen, len(h.contents[c]))
+		} else {
+			celen = append(celen, -1)
+		}
 	}
-	h.tw.Emit(vObj{"a": "Reset", "beh": bi, "allow": b.Conf.Allow, "eccv": b.Conf.Eccv, "lim": vInt(b.Conf.Lim), "clen": clen, "S": h.snapshot()})
+	h.tw.Emit(vObj{"a": "Reset", "beh": bi, "allow": b.Conf.Allow, "eccv": b.Conf.Eccv, "lim": vInt(b.Conf.Lim), "clen": clen, "cenc": cenc, "celen": celen, "S": h.snapshot()})
 
 	steps := b.Steps
 	for i := 0; i < len(steps); i++ {
